@@ -48,17 +48,19 @@ Init == /\ nsent = 0 /\ wn = FALSE /\ wks = 0 /\ wire = <<>> /\ closed = FALSE /
         /\ rbad = FALSE /\ delivered = <<>> /\ under = 0 /\ rg = "none" /\ wg = FALSE /\ wr = FALSE /\ eofd = FALSE
         /\ nglitch = 0 /\ wdead = FALSE /\ reof = FALSE /\ op = [name |-> "init"]
 
-\* A write that is refused whole leaves NOTHING behind: no nonce on the wire, no key-stream position spent, the
-\* Write reports (0, error); what the caller writes afterwards - the same bytes again or others - arrives like
-\* any other write.  (That is what the statement's first sentence asks for: the bytes of the writes that
-\* reported success arrive unmodified, once, in order.)
+\* A write that is refused whole puts nothing on the wire and reports (0, error).  The statement's first sentence
+\* then asks: the bytes of the writes that report SUCCESS arrive unmodified, once, in order.
 Write(k) ==
   /\ ~closed /\ ~wdead
   /\ nsent + k <= MaxSent
   /\ IF wr /\ (k > 0 \/ ~wn)                  \* (an empty write behind the nonce does not reach the connection)
        THEN /\ wr' = FALSE
-            /\ op' = [name |-> "write", k |-> k, n |-> 0, nonce |-> ~wn, short |-> FALSE, refused |-> TRUE]
-            /\ UNCHANGED <<wire, nsent, wg, wdead, wn, wks>>
+            \* on the first write (the nonce has not gone out) nothing at all has happened and the caller may go
+            \* on; behind the nonce the key-stream position is spent, so the connection FAILS CLOSED: every later
+            \* Write fails (the stream could not be resynchronised, and there is no integrity to notice it)
+            /\ wdead' = wn
+            /\ op' = [name |-> "write", k |-> k, n |-> 0, nonce |-> ~wn, short |-> FALSE, refused |-> TRUE, dead |-> FALSE]
+            /\ UNCHANGED <<wire, nsent, wg, wn, wks>>
        ELSE /\ LET short == wg /\ k >= 2                 \* the underlying Write takes only a part and reports an error
                    a == IF short THEN k \div 2 ELSE k
                    hdr == IF wn THEN <<>> ELSE [i \in 1..NonceLen |-> NonceUnit]
@@ -66,10 +68,16 @@ Write(k) ==
                IN /\ wire' = wire \o hdr \o body
                   /\ nsent' = nsent + a
                   /\ wg' = (wg /\ ~short) /\ wdead' = short
-                  /\ op' = [name |-> "write", k |-> k, n |-> a, nonce |-> ~wn, short |-> short, refused |-> FALSE]
+                  /\ op' = [name |-> "write", k |-> k, n |-> a, nonce |-> ~wn, short |-> short, refused |-> FALSE, dead |-> FALSE]
             /\ wn' = TRUE /\ wks' = wks + k              \* the key stream advances over the whole input
             /\ wr' = wr
   /\ UNCHANGED <<closed, rn, rks, rbad, delivered, under, rg, eofd, nglitch, reof>>
+
+\* after a failed write every later Write fails, with nothing on the wire
+WriteDead(k) ==
+  /\ ~closed /\ wdead
+  /\ op' = [name |-> "write", k |-> k, n |-> 0, nonce |-> FALSE, short |-> FALSE, refused |-> FALSE, dead |-> TRUE]
+  /\ UNCHANGED View
 
 Close == /\ ~closed /\ wn /\ closed' = TRUE /\ op' = [name |-> "close"]
          /\ UNCHANGED <<nsent, wn, wks, wire, rn, rks, rbad, delivered, under, rg, wg, wr, eofd, nglitch, wdead, reof>>
@@ -118,6 +126,7 @@ Glitch(kind) ==
   /\ UNCHANGED <<nsent, wn, wks, wire, closed, rn, rks, rbad, delivered, under, wdead, reof>>
 
 Next == \/ \E k \in 0..MaxWrite : Write(k)
+        \/ \E k \in 1..MaxWrite : WriteDead(k)
         \/ \E b \in Bufs : Read(b)
         \/ \E k \in Shorts : Short(k)
         \/ \E kind \in Glitches : Glitch(kind)
